@@ -140,6 +140,12 @@ def annotate(prog) -> List[Any]:
                 node = {"k": k}
                 node["body"] = walk(s[1], dict(env, i=("ctx" if k == "enum" else False), v=True))
                 out.append(node)
+            elif k == "try":
+                # with conn.try_until_success(max_tries): body   (the body is built once, after what was queued before it)
+                out.append({"k": "try", "max": s[1], "body": walk(s[2], env)})
+            elif k in ("sliceadd", "slicem"):
+                # for f in A0.get_future_slice(slice(start, stop, step)): f.add(c) / measure |1> into f
+                out.append({"k": k, "slice": tuple(s[1]), "c": s[2] if len(s) > 2 else None})
             elif k == "until":
                 _, mx, prep, v, extra = s
                 node = {"k": "until", "max": mx, "prep": prep, "v": v, "addr": st["next_addr"]}
@@ -290,6 +296,14 @@ class Direct:
             elif k in ("foreach", "enum"):
                 for idx in range(len(self.arrays[0])):
                     self.run(n["body"], dict(env, i=idx, vi=idx))
+            elif k == "try":
+                self.run(n["body"], env)
+            elif k in ("sliceadd", "slicem"):
+                for idx in range(len(self.arrays[0]))[slice(*n["slice"])]:
+                    if k == "sliceadd":
+                        self.arrays[0][idx] = self.arrays[0][idx] + n["c"]
+                    else:
+                        self.arrays[0][idx] = self.measure_fresh("1")
             elif k == "until":
                 for _ in range(n["max"]):
                     out = self.measure_fresh(n["prep"])
@@ -424,6 +438,17 @@ class Real:
             elif k == "enum":
                 with self.A0.enumerate() as (i, v):
                     self.build(n["body"], dict(env, v=v, i=i))
+            elif k == "try":
+                with conn.try_until_success(max_tries=n["max"]):
+                    self.build(n["body"], env)
+            elif k in ("sliceadd", "slicem"):
+                for f in self.A0.get_future_slice(slice(*n["slice"])):
+                    if k == "sliceadd":
+                        f.add(n["c"])
+                    else:
+                        q = Qubit(conn)
+                        q.X()
+                        q.measure(future=f)
             elif k == "until":
                 with conn.loop_until(n["max"]) as loop:
                     q = Qubit(conn)
@@ -496,7 +521,7 @@ def run_case(prog, flushes, init, part, case_extra=None, config="generic") -> No
     for chosen, (real, obs) in choices.explore(one, max_runs=4096):
         part["evals"] += 1
         outcomes = [o for _, o in real.ex.meas_trace]
-        nontrivial = bool(flushes) or any(s[0] in ("if", "loop", "foreach", "enum", "until") for s in prog)
+        nontrivial = bool(flushes) or any(s[0] in ("if", "loop", "foreach", "enum", "until", "try", "sliceadd", "slicem") for s in prog)
         part["distinct"] += 1 if nontrivial else 0
         c = dict(case, outcomes=outcomes)
         compare(tree, flushes, init, real, obs, outcomes, c, part)
@@ -901,6 +926,35 @@ def extra_programs():
             out.append((base + [("add", ("arr", 0), ("lastreg",), None)], [set()], [INITS[0]]))
             out.append((base + [("m", p1, ("lastreg",)), ("if", "nz", ("lastreg",), None, "cb", [("gp", "h")])], [set()], [INITS[0]]))
     out.append(([("newreg", 0), ("m", "1", ("lastreg",)), ("add", ("arr", 0), ("lastreg",), None)], [set()], [INITS[0]]))
+    # single-operand conditions on a register the host holds (the condition must not give the register away)
+    for v in (0, 1):
+        for cmp in ("ez", "nz"):
+            for style in ("ctx", "cb"):
+                cond = ("if", cmp, ("lastreg",), None, style, [("gp", "x")])
+                for x in users + [("until", 2, "1", 0, []), ("m", "1", ("new",))]:
+                    out.append(([("newreg", v), cond, x, incr, ("if", "eq", ("lastreg",), v + 2, "ctx", [("gp", "z")])], [set()], [INITS[0]]))
+                out.append(([("newreg", v), cond, ("loop", 2, "ctx", [("gp", "y")]), ("add", ("arr", 0), 5, None),
+                             ("if", "eq", ("lastreg",), v, "ctx", [("gp", "z")])], [set()], [INITS[0]]))
+    # conn.try_until_success: what was queued before the context, the body, and what follows all reach the controller once
+    for body in ([("m", "1", ("arr", 0))], [("gp", "h"), ("m", "+", ("new",))], [("add", ("arr", 1), 2, None)], []):
+        for mx in (1, 3):
+            t = ("try", mx, body)
+            out.append(([t], [set()], [INITS[0]]))
+            for x in firsts + pool_small()[:4]:
+                out.append(([x, t], [set(), {0}], [INITS[0]]))
+                out.append(([x, t, ("add", ("arr", 1), 1, None)], [set(), {1}], [INITS[0]]))
+        out.append(([("loop", 2, "ctx", [("gp", "x"), ("try", 2, body)])], [set()], [INITS[0]]))
+    # handles of an array slice (start / stop / step as Python's slice(...) means them)
+    for sl in ((0, 3, 1), (0, 3, 2), (1, 3, 2), (1, 3, 1), (0, 2, 1), (None, 2, None), (1, None, None), (None, None, 2), (None, 3, 2),
+               (0, 3, None), (2, 0, -1), (None, None, None)):
+        out.append(([("sliceadd", sl, 4)], [set()], [INITS[2]]))
+        out.append(([("slicem", sl)], [set()], [INITS[2]]))
+        out.append(([("add", ("arr", 2), 1, None), ("sliceadd", sl, 1), ("foreach", [("add", ("v",), 1, None)])], [set(), {0}], [INITS[2]]))
+    # loop_until with exit bounds on both sides of the values the condition register can take
+    for v in (-1, -2, 0, 1, 2):
+        for prep in ("1", "0", "+"):
+            out.append(([("until", 3, prep, v, [])], [set()], [INITS[0]]))
+            out.append(([("until", 2, prep, v, [("add", ("arr", 0), 1, None)]), ("gp", "x")], [set()], [INITS[0]]))
     # additions of 0 with a modulus (a "nothing to add" shortcut must still reduce), on array entries and registers
     for mod in (1, 2, 3):
         out.append(([("add", ("arr", 0), 0, mod)], [set()], INITS))
